@@ -4,7 +4,7 @@ MANIFEST = dict(
     category="other",
     text="Decided on the real bodies for bounded sizes: the ROC curve of every label pattern and every score order (scores symbolic, no ties) "
          "starts at (0,0), has one point per object in descending score order with coordinates count/total, is monotone and ends at (1,1); "
-         "the "missing-coded truths are ignored" obligation for R2/MSE/MAE/BIAS (value equals the function on the vectors without that element) is only attempted in the thorough tier: no back end finished it within 15 minutes; the PLS "
+         "the 'missing-coded truths are ignored' obligation for R2/MSE/MAE/BIAS (value equals the function on the vectors without that element) is only attempted in the thorough tier: no back end finished it within 15 minutes; the PLS "
          "statistic tables are R2/RMSE/BIAS applied per response and latent variable to the right columns with missing-coded rows removed.",
     note="Bounded: 2..3 objects for ROC (all patterns/orders enumerated), 3 elements for the missing-value obligation, 2..3 rows for the tables. "
          "AUC = Mann-Whitney probability, invariance under monotone maps, 1-AUC under negation, MAE <= RMSE, R2 <= 1, RMSE^2 = MSE are "
